@@ -41,6 +41,23 @@ pub enum Formula<'a> {
     Iff(Box<Formula<'a>>, Box<Formula<'a>>),
 }
 
+/// Name under which a statement is known to biodivine.
+///
+/// biodivine reserves some characters (e.g. brackets and operator symbols), which may occur in quoted labels, so every
+/// non-alphanumeric character is escaped; the mapping is injective.
+pub(crate) fn biodivine_var_name(label: &str) -> String {
+    label
+        .chars()
+        .map(|c| {
+            if c.is_alphanumeric() {
+                c.to_string()
+            } else {
+                format!("_{:x}_", c as u32)
+            }
+        })
+        .collect()
+}
+
 impl Formula<'_> {
     pub(crate) fn to_boolean_expr(
         &self,
@@ -49,7 +66,7 @@ impl Formula<'_> {
             Formula::Top => biodivine_lib_bdd::boolean_expression::BooleanExpression::Const(true),
             Formula::Bot => biodivine_lib_bdd::boolean_expression::BooleanExpression::Const(false),
             Formula::Atom(name) => {
-                biodivine_lib_bdd::boolean_expression::BooleanExpression::Variable(name.to_string())
+                biodivine_lib_bdd::boolean_expression::BooleanExpression::Variable(biodivine_var_name(name))
             }
             Formula::Not(subformula) => {
                 biodivine_lib_bdd::boolean_expression::BooleanExpression::Not(Box::new(
